@@ -5,6 +5,7 @@ pub mod c04;
 pub mod c05;
 pub mod c06;
 pub mod c14;
+pub mod c17;
 pub mod c19;
 
 use crate::fw::Outcome;
